@@ -83,7 +83,7 @@ class E1Run:
         elif a.get("shipped"):
             from dst.scenario import load_shipped
 
-            self.scenario = load_shipped(a["shipped"], max_episode_length=a.get("max_episode_length"), seed=a.get("game_seed", self.seed % (2**31)), io=a.get("io"), tap_variation=a.get("tap_variation"), tap_fast=bool(a.get("tap_fast")))
+            self.scenario = load_shipped(a["shipped"], max_episode_length=a.get("max_episode_length"), seed=a.get("game_seed", self.seed % (2**31)), io=a.get("io"), tap_variation=a.get("tap_variation"), tap_fast=bool(a.get("tap_fast")), tap_zero_stage=a.get("tap_zero_stage"))
             self.origin = "shipped:" + a["shipped"] + ("+tap-variation" if a.get("tap_variation") is not None else "")
         else:
             from dst.scenario import generate
